@@ -379,6 +379,8 @@ def to_roles(t, rec_of=None):
         root = path[0][1] if path[0][0] == "sym" else None
         owner = hops[-1] if hops else root
         role = ROLE_HOPS.get(owner)
+        if role is None and not hops and root in ("$TLweParams", "$TGswParams"):
+            role = {"$TLweParams": "tlwe", "$TGswParams": "tgsw"}[root]       # the parameter object an owning object was constructed with
         if role is None and rec_of is not None:
             # the hop has a neutral name (e.g. `params`): use the type of the parameter object when it is unambiguous
             role = {"TLweParams": "tlwe", "TGswParams": "tgsw"}.get(rec_of(a[1]))
@@ -491,7 +493,31 @@ def check_field_arrays(chk, v, f, rel, fext, earr):
                 s_, d_ = "proved", "under the enclosing conditions"
         if s_ == "refuted" and not (e_full and n_full):
             s_ = "unknown"
+        if s_ != "proved":
+            # a witness: small values of the parameter-set dimensions for which the extent is exceeded whatever the other
+            # quantities are (scalar parameters the function itself uses as a bare subscript are >= 0 in every valid call)
+            import itertools as _it2
+            from sa import affine
+            diff = sym.sub(ext_r, need_r)
+            role = [d_0 for d_0 in (sym.sym("N"), sym.sym("k"), sym.sym("l"), sym.sym("n_in")) if sym.contains(diff, d_0)]
+            facts = affine.guard_constraints([to_roles(R(g), rec_of)[0] for g in guards]) + list(nonneg_params)
+            for vals in _it2.product((1, 2, 3), repeat=len(role)):
+                sub_ = dict(zip(role, (I(x_) for x_ in vals)))
+                d2 = sym.subst(diff, sub_)
+                f2 = [sym.subst(c_, sub_) for c_ in facts]
+                if affine.prove_nonneg(sym.sub(sym.neg(d2), I(1)), f2):
+                    return "refuted", "with %s: extent - (highest index + 1) = %s < 0 for every admissible value of the remaining quantities" % (
+                        ", ".join("%s = %d" % (sym.show(r_), x_) for r_, x_ in zip(role, vals)) or "no dimensions", sym.show(d2)[:60])
         return s_, d_
+    # scalar parameters used as a bare subscript somewhere in the function (x[index]): non-negative in every valid call
+    nonneg_params = []
+    psyms = {sym.sym(p_["n"]) for p_ in f.params if not p_["t"].rstrip().endswith("*")}
+    for x, _lo, _gu in bounds.walk_eff(eff):
+        for t in ([x.get("lv"), x.get("val")] if x["e"] == "store" else [x.get("val")] if x["e"] in ("return", "local") else []):
+            if isinstance(t, tuple):
+                for st_ in sym.subterms(t):
+                    if st_[0] == "idx" and st_[2] in psyms and st_[2] not in nonneg_params:
+                        nonneg_params.append(st_[2])
     # memcpy family
     for x, loops, guards in bounds.walk_eff(eff):
         if x["e"] != "call" or x["name"] not in MEMFUNCS:
@@ -516,6 +542,46 @@ def check_field_arrays(chk, v, f, rel, fext, earr):
             key = "%s: %s over %s stays inside the array (%s elements)" % (f.name, x["name"], sym.show(base)[:50], sym.show(R(extent))[:40])
             chk.ob("R10", key, {"proved": "proved", "refuted": "refuted"}.get(s_, "assumed"), where="%s:%s" % (f.file, x["l"]),
                    detail="%s bytes = %s elements from offset %s: %s" % (sym.show(nbytes)[:60], sym.show(cnt)[:60], sym.show(off)[:30], d_[:160]), variant=v.name)
+    # subscripts: O.G[e] with G an array whose extent O determines
+    seen = {}
+    for x, loops, guards in bounds.walk_eff(eff):
+        terms = []
+        if x["e"] == "store":
+            terms = [x["lv"], x.get("val")]
+        elif x["e"] == "call":
+            terms = list(x.get("args") or [])
+        elif x["e"] == "if":
+            terms = [x["cond"]]
+        elif x["e"] == "return":
+            terms = [x.get("val")]
+        elif x["e"] == "local":
+            terms = [x.get("val")]
+        for t in terms:
+            if not isinstance(t, tuple):
+                continue
+            addressed = {a_[1] for a_ in sym.subterms(t) if a_[0] == "addr"}       # &A[e] computes an address, it does not access A[e]
+            for st_ in sym.subterms(t):
+                if st_[0] != "idx" or st_[1][0] != "fld" or sym.const_value(st_[2]) == 0 or st_ in addressed:
+                    continue
+                base, e = st_[1], st_[2]
+                if (base, e) in seen or bounds._has_unk(e):
+                    continue
+                extent = bounds.field_array_extent(v, base, roots, fext, earr)
+                if extent is None or bounds._has_unk(extent):
+                    continue
+                rng = bounds.index_range(e, loops)
+                if rng is None:
+                    continue
+                seen[(base, e)] = True
+                s_, d_ = decide(extent, sym.add(rng[1], I(1)), guards, loops, "subscript", x.get("l"))
+                if s_ == "proved":
+                    s0, d0 = decide(rng[0], I(0), guards, loops, "subscript", x.get("l"))
+                    if s0 == "refuted":
+                        s_, d_ = s0, "the index can be negative: " + d0
+                n += 1
+                key = "%s: %s[%s] stays inside the array (%s elements)" % (f.name, sym.show(base)[:50], re.sub(r"\bu\d+@", "u@", sym.show(e))[:40], sym.show(R(extent))[:40])
+                chk.ob("R10", key, {"proved": "proved", "refuted": "refuted"}.get(s_, "assumed"), where="%s:%s" % (f.file, x.get("l")),
+                       detail="index up to %s: %s" % (sym.show(rng[1])[:60], d_[:160]), variant=v.name)
     return n
 
 
